@@ -401,7 +401,10 @@ fn run_threads_guarded(case: &Case, out: &mut Out) {
           sleeping = 0;
         }
         let silent = last_msg.elapsed();
-        if sleeping >= 2 || (st.is_none() && silent > Duration::from_secs(2)) {
+        // (a thread that is only briefly asleep — allocator or stdout contention on a loaded machine — must not
+        // be taken for a self-deadlock: a re-locked mutex keeps it asleep for good, so wait for 60 consecutive
+        // sleeping samples ≈ 180 ms without any message)
+        if (sleeping >= 60 && silent > Duration::from_millis(150)) || (st.is_none() && silent > Duration::from_secs(2)) {
           let k = out.cur;
           out.emit(k, "RELOCK".to_string());
           return;
